@@ -202,6 +202,7 @@ type ProcCase struct {
 	StartOnly []string `json:"startOnly,omitempty"` // with StartMode 1/2: the start events to fire (in this order); empty = all
 	Waiters  []WaiterPlan `json:"waiters,omitempty"` // empty = one plain waiter
 	AnsDelayMs int    `json:"ansDelayMs,omitempty"` // fake time the answerer lets pass before each answer
+	Together []string `json:"together,omitempty"` // these activities are answered at the same moment (each from its own goroutine) once all of them are pending
 	Rounds   bool     `json:"rounds,omitempty"` // answer the r-th request of every activity before any (r+1)-th
 	LogProps bool     `json:"logProps,omitempty"`
 	Stress   *Stress  `json:"stress,omitempty"`  // additional concurrent clients (C17)
@@ -519,6 +520,7 @@ func (c *ProcCase) Main() {
 	go func() {
 		defer close(ansDone)
 		var pending []pendingReq
+		togetherDone, waits := false, 0
 		answers := map[string]int{}
 		// events delivered by this coordinator, one at a time, only at moments when the engine is quiescent
 		var quiet []EvPlan
@@ -646,7 +648,93 @@ func (c *ProcCase) Main() {
 					continue
 				}
 			}
+			if len(c.Together) > 0 && !togetherDone {
+				// the listed activities are answered at the same moment, each from its own goroutine, once all of them
+				// are pending; until then none of them is answered
+				var idx []int
+				for _, act := range c.Together {
+					for k, p := range pending {
+						if p.act == act {
+							idx = append(idx, k)
+							break
+						}
+					}
+				}
+				if len(idx) == len(c.Together) {
+					togetherDone = true
+					env.fault("answers-at-the-same-moment")
+					batch := make([]pendingReq, 0, len(idx))
+					taken := map[int]bool{}
+					for _, k := range idx {
+						batch = append(batch, pending[k])
+						taken[k] = true
+					}
+					var rest []pendingReq
+					for k, p := range pending {
+						if !taken[k] {
+							rest = append(rest, p)
+						}
+					}
+					pending = rest
+					bd := make(chan struct{}, len(batch))
+					for _, r := range batch {
+						r := r
+						answers[r.act]++
+						res := map[string]any{"r_" + r.act: fmt.Sprintf("%s#%d", r.act, answers[r.act])}
+						if node, _ := c.Prog.Defs.Procs[0].FindNode(r.act); node != nil {
+							if node.Counter != "" {
+								res[node.Counter] = answers[r.act]
+							}
+							for _, k := range sortedKeys(node.Writes) {
+								res[k] = node.Writes[k]
+							}
+						}
+						L.AddV("ans", r.act, res)
+						go func() {
+							r.tt.Do(bpmn.DoWithResults(res))
+							L.Add("ans-ret", r.act, "", answers[r.act])
+							bd <- struct{}{}
+						}()
+					}
+					for range batch {
+						select {
+						case <-bd:
+						case <-stop:
+							return
+						}
+					}
+					continue
+				}
+				// not all of them are there yet: answer something else, or wait
+				var other []int
+				for k, p := range pending {
+					listed := false
+					for _, act := range c.Together {
+						listed = listed || p.act == act
+					}
+					if !listed {
+						other = append(other, k)
+					}
+				}
+				if len(other) == 0 {
+					waits++
+					if waits < 300 {
+						select {
+						case <-time.After(time.Millisecond):
+						case <-stop:
+							return
+						}
+						continue
+					}
+					togetherDone = true // (they never come together: go on one by one)
+				} else {
+					pending[0], pending[other[0]] = pending[other[0]], pending[0]
+				}
+			}
 			i := env.pick(len(pending))
+			if len(c.Together) > 0 && !togetherDone {
+				i = 0
+			}
 			if c.Rounds {
 				minSeq := pending[0].seq
 				for _, p := range pending {
